@@ -731,16 +731,16 @@ def _t(ctx, what):
 def run(ctx):
     # ---- 1. the bounded design: I => P for every type list / every iteration order
     tlc.check_model(ctx, "NamespaceTree", "NamespaceTree",
-                    constants="prefix stropping; Names={a,if,_if} Shorts={t}+t.1.1 MaxDepth=2 MaxTypes=3", timeout=3000)
+                    constants="prefix stropping; Names={a,if,_if} Shorts={t}+t.1.1 MaxDepth=2 MaxTypes=3", timeout=3000, xmx="4g")
     tlc.check_model(ctx, "NamespaceTree", "NamespaceTree_suffix",
-                    constants="suffix stropping; Roots={r,if} Names={if,if_} Shorts={t,if}+t.1.1 MaxDepth=2 MaxTypes=2 genNs both", timeout=3000)
+                    constants="suffix stropping; Roots={r,if} Names={if,if_} Shorts={t,if}+t.1.1 MaxDepth=2 MaxTypes=2 genNs both", timeout=3000, xmx="4g")
     if not ctx.quick:
         tlc.check_model(ctx, "NamespaceTree", "NamespaceTree_big", constants="prefix; Names={a,if,_if} Shorts={t,if}+t.1.1 MaxDepth=2 MaxTypes=3", timeout=3000)
         tlc.check_model(ctx, "NamespaceTree", "NamespaceTree_deep", constants="prefix; Names={a,if} Shorts={t}+t.1.1 MaxDepth=3 MaxTypes=3", timeout=3000)
         tlc.check_model(ctx, "NamespaceTree", "NamespaceTree_four", constants="prefix; Names={a,if} Shorts={t}+t.1.1 MaxDepth=2 MaxTypes=4", timeout=3000)
     # negative control of the model: the property WITHOUT its exception for folded names must be refuted by TLC (the I-layer drops the second of
     # two sibling namespaces with one stropped image) - shows that the clauses bite on the model and that folding is really modelled
-    neg = tlc.run_tlc(tlc.SPECS / "NamespaceTree.tla", tlc.SPECS / "NamespaceTree_neg.cfg", ctx.scratch)
+    neg = tlc.run_tlc(tlc.SPECS / "NamespaceTree.tla", tlc.SPECS / "NamespaceTree_neg.cfg", ctx.scratch, workers=2, xmx="2g")
     if neg.violated != "RefinesNoFold":
         raise MachineryFailure("negative control: folding inputs were not refuted under the unconditional property (%s %s)" % (neg.error, neg.violated))
     ctx.cov["model_negative_control"] = "invariant RefinesNoFold (property without the folding exception) refuted after %d states" % neg.distinct
@@ -753,7 +753,7 @@ def run(ctx):
     for mode in ("prefix", "suffix", "none"):
         cases = []
         for cfgname in EMIT_CFGS[mode][0 if ctx.quick else 1]:
-            cases += tlc.emit_cases(ctx, "NamespaceTree", cfgname, name=cfgname, constants="emission, StropMode=%s" % mode)
+            cases += tlc.emit_cases(ctx, "NamespaceTree", cfgname, name=cfgname, constants="emission, StropMode=%s" % mode, xmx="3g")
         if len(cases) < 300:
             raise MachineryFailure("too few cases emitted for mode %s: %d" % (mode, len(cases)))
         ncases += len(cases)
